@@ -26,6 +26,7 @@ Case(kind, len, start, stop, step, stepomit, doc) ==
    text |-> IF kind \in {"index", "otheridx"} THEN IndexText(step) ELSE SliceText(start, stop, step, stepomit),
    doc |-> doc]
 
+NullDoc(len) == JArr([i \in 1..len |-> IF i % 2 = 1 THEN JNull ELSE JInt(i - 1)])
 Small == CHOOSE n \in 0..64 : ToString(n) = IOEnv.SMALL
 MaxLen == CHOOSE n \in 0..64 : ToString(n) = IOEnv.MAXLEN
 Edge == {MAXI, MAXI - 1, -MAXI, -(MAXI - 1)}
@@ -38,7 +39,11 @@ EnumCases(zzdummy) ==
   {Case(k, len, a, b, c, FALSE, IotaDoc(len)) :
       k \in {"slice", "method"}, len \in 0..MaxLen, a \in Ends, b \in Ends, c \in Ints \ {0}}
   \cup {Case("slice", len, a, b, 1, TRUE, IotaDoc(len)) : len \in 0..MaxLen, a \in Ends, b \in Ends}
-  \cup {Case("slice", len, a, b, 0, FALSE, IotaDoc(len)) : len \in 0..2, a \in {None, Some(1)}, b \in {None, Some(-1)}}
+  \cup {Case("slice", len, a, b, 0, FALSE, IotaDoc(len)) : len \in 0..2, a \in Ends, b \in Ends}           \* step 0 is an error whatever the endpoints
+  \cup {Case("slice", 5, a, b, 0, FALSE, IotaDoc(5)) : a \in {None, Some(0), Some(2), Some(8), Some(-8), Some(-2)}, b \in {None, Some(0), Some(1), Some(3), Some(8), Some(-2), Some(-8)}}
+  \* documents that hold nulls at selected positions: a slice selects positions, not contents (the public method keeps every one)
+  \cup {Case("method", len, a, b, c, FALSE, NullDoc(len)) : len \in 1..MaxLen, a \in {None, Some(0), Some(1), Some(-1), Some(-2)},
+                                                           b \in {None, Some(0), Some(2), Some(-1), Some(MaxLen)}, c \in {1, 2, -1, -2}}
   \cup {Case("index", len, None, None, n, FALSE, IotaDoc(len)) : len \in 0..MaxLen, n \in Ints}
   \cup {Case("other", 0, a, b, c, FALSE, d) : a \in {None, Some(0)}, b \in {None, Some(2)}, c \in {1, -1, 2}, d \in OtherDocs}
   \cup {Case("otheridx", 0, None, None, n, FALSE, d) \* index of a non-array
@@ -63,7 +68,17 @@ ContextCases(zzdummy) ==
                                text |-> cells[x][1] \o <<cLBRACKET>> \o OptText(cells[x][2]) \o <<cCOLON>> \o OptText(cells[x][3])
                                         \o <<cCOLON>> \o IntText(cells[x][4]) \o <<cRBRACKET>>]]
 
-Cases(zzdummy) == IF IOEnv.MODE = "enum" THEN SetToSeq(EnumCases(0)) ELSE IF IOEnv.MODE = "context" THEN ContextCases(0) ELSE SpellCases(0)
+NullRow == JArr(<<JInt(0), JNull, JStr(<<116>>), JNull, JNull, JInt(5)>>)
+NullConts == << <<>>, <<cDOT>> \o <<116, 121, 112, 101, cLPAREN, cAT, cRPAREN>>, <<cLBRACKET, cSTAR, cRBRACKET>>, <<cPIPE, cLBRACKET, 48, cRBRACKET>>,
+                <<cDOT>> \o <<116, 111, 95, 97, 114, 114, 97, 121, cLPAREN, cAT, cRPAREN>>, <<cPIPE>> \o <<108, 101, 110, 103, 116, 104, cLPAREN, cAT, cRPAREN>>,
+                <<cLBRACKET, cQMARK, cBANG, cAT, cRBRACKET>>, <<cDOT>> \o <<110, 111, 116, 95, 110, 117, 108, 108, cLPAREN, cAT, cCOMMA, 96, 55, 96, cRPAREN>> >>
+NullContextCases(zzdummy) ==
+  LET cells == SetToSeq({<<a, b, c, k>> : a \in {None, Some(0), Some(1), Some(-2)}, b \in {None, Some(2), Some(5), Some(-1)}, c \in {1, 2, -1}, k \in DOMAIN NullConts})
+  IN [x \in DOMAIN cells |-> [e |-> "eval", doc |-> NullRow,
+                               text |-> <<cAT, cLBRACKET>> \o OptText(cells[x][1]) \o <<cCOLON>> \o OptText(cells[x][2]) \o <<cCOLON>> \o IntText(cells[x][3])
+                                        \o <<cRBRACKET>> \o NullConts[cells[x][4]]]]
+
+Cases(zzdummy) == IF IOEnv.MODE = "enum" THEN SetToSeq(EnumCases(0)) ELSE IF IOEnv.MODE = "context" THEN ContextCases(0) \o NullContextCases(0) ELSE SpellCases(0)
 
 ASSUME ndJsonSerialize(IOEnv.OUT, Cases(0))
 ASSUME PrintT(<<"CASES", Len(Cases(0))>>)
